@@ -302,6 +302,18 @@ namespace
 	 return std::vector<DFS::byte>();
       };
     errno = 0;
+    // Don't trust |len| (which may have come from the image file
+    // itself) when sizing the buffer; we can't read more than the
+    // file contains.
+    if (0 != fseek(f_, 0, SEEK_END))
+      return fail();
+    const long file_size = ftell(f_);
+    if (file_size < 0)
+      return fail();
+    if (pos >= static_cast<unsigned long>(file_size))
+      return std::vector<DFS::byte>();
+    if (static_cast<unsigned long>(file_size) - pos < len)
+      len = static_cast<unsigned long>(file_size) - pos;
     if (0 != fseek(f_, pos, SEEK_SET))
       return fail();
     std::vector<DFS::byte> buf;
